@@ -62,44 +62,37 @@ Theorem C34_mpsc_send_wakes_parked_receiver :
     o_woke (snd (mpsc_step (run mpsc_step s1 mid) (Send h v))) = [w].
 Proof. exact mpsc_send_wakes_parked. Qed.
 
-(* DEFECT (known finding C34-mpsc-never-closes): mpsc never reports disconnection … *)
-Theorem C34_mpsc_never_reports_disconnection :
-  forall ops w, o_ret (snd (mpsc_step (run mpsc_step mpsc_init ops) (Poll w))) <> RClosed.
-Proof. exact mpsc_never_reports_closed. Qed.
+(* disconnection is reported exactly when every sender handle (original and clones) has been
+   dropped and nothing sent is outstanding: queued values are still delivered first
+   (fixed in /repo commit 112abf8; before it this clause was false for mpsc) *)
+Theorem C34_mpsc_disconnect_iff :
+  forall ops w,
+    m_recv (run mpsc_step mpsc_init ops) = true ->
+    (o_ret (snd (mpsc_step (run mpsc_step mpsc_init ops) (Poll w))) = RClosed <->
+     all_dropped (m_senders (run mpsc_step mpsc_init ops)) = true /\
+     recv_vals (trace mpsc_step mpsc_init ops) = sent_vals (trace mpsc_step mpsc_init ops)).
+Proof. exact mpsc_disconnect_iff. Qed.
 
-(* … so the disconnection clause is refuted: all senders dropped, nothing ever sent, receiver
-   alive, and the poll still says Pending; the history is in the known class and the strict
-   monitor rejects it *)
-Theorem C34_mpsc_disconnection_refuted :
-  exists ops,
-    mpsc_known_class ops = true /\
-    oracle KMpsc true (trace mpsc_step mpsc_init ops) = false /\
-    all_dropped (m_senders (run mpsc_step mpsc_init ops)) = true /\
-    m_recv (run mpsc_step mpsc_init ops) = true /\
-    sent_vals (trace mpsc_step mpsc_init ops) = [] /\
-    o_ret (snd (mpsc_step (run mpsc_step mpsc_init ops) (Poll 0%nat))) = RPending.
-Proof. exact mpsc_disconnect_refuted. Qed.
+(* sender_count is the number of sender handles not yet dropped; is_closed is set exactly
+   when all of them have been dropped *)
+Theorem C34_mpsc_sender_count :
+  forall ops,
+    mi_count (m_in (run mpsc_step mpsc_init ops)) = live_count (m_senders (run mpsc_step mpsc_init ops)) /\
+    mi_closed (m_in (run mpsc_step mpsc_init ops)) = all_dropped (m_senders (run mpsc_step mpsc_init ops)).
+Proof. exact (fun ops => conj (mpsc_count ops) (mpsc_closed_iff ops)). Qed.
+
+(* `sender_count += 1` / `-= 1` never overflow or underflow *)
+Theorem C34_mpsc_no_panic :
+  forall ops, Z.of_nat (length ops) < u64_max -> panics (trace mpsc_step mpsc_init ops) = false.
+Proof. exact mpsc_no_panic. Qed.
 
 (* the whole property (trace monitor `oracle`, ChannelsModel.v: accepted sends, oldest-first
    delivery, Closed exactly when all senders are dropped and nothing is outstanding, never a
-   parked receiver while a poll would be Ready, no panic) holds for every mpsc history outside
-   the known class, i.e. whenever no step observes disconnection … *)
-Theorem C34_mpsc_property_unless_known :
-  forall ops, mpsc_known_class ops = false ->
-    oracle KMpsc true (trace mpsc_step mpsc_init ops) = true.
-Proof. exact mpsc_oracle_strict_unless_known. Qed.
-
-(* the known class is exactly the family on which the property fails: the strict monitor
-   rejects a history if and only if some step of it observes disconnection *)
-Theorem C34_mpsc_known_class_exact :
-  forall ops,
-    oracle KMpsc true (trace mpsc_step mpsc_init ops) = negb (mpsc_known_class ops).
-Proof. exact mpsc_known_class_exact. Qed.
-
-(* … and with the two disconnection clauses waived it holds for every history *)
-Theorem C34_mpsc_property_except_disconnection :
-  forall ops, oracle KMpsc false (trace mpsc_step mpsc_init ops) = true.
-Proof. exact mpsc_oracle_relaxed. Qed.
+   parked receiver while a poll would be Ready, no panic) holds for every mpsc history *)
+Theorem C34_mpsc_property :
+  forall ops, Z.of_nat (length ops) < u64_max ->
+    oracle KMpsc (trace mpsc_step mpsc_init ops) = true.
+Proof. exact mpsc_oracle. Qed.
 
 (* =============================================================== oneshot *)
 
@@ -142,7 +135,7 @@ Theorem C34_oneshot_disconnect_iff :
 Proof. exact oneshot_disconnect_iff. Qed.
 
 Theorem C34_oneshot_property :
-  forall ops, oracle KOneshot true (trace oneshot_step oneshot_init ops) = true.
+  forall ops, oracle KOneshot (trace oneshot_step oneshot_init ops) = true.
 Proof. exact oneshot_oracle. Qed.
 
 (* ========================================================== notification *)
@@ -200,7 +193,7 @@ Proof. exact notif_disconnect_iff. Qed.
 
 Theorem C34_notification_property :
   forall ops, Z.of_nat (length ops) < u64_max ->
-    oracle KNotif true (trace notif_step notif_init ops) = true.
+    oracle KNotif (trace notif_step notif_init ops) = true.
 Proof. exact notif_oracle. Qed.
 
 (* ============================================================ non-vacuity *)
@@ -215,7 +208,11 @@ Example C34_mpsc_nonvacuous :
   o_ret (snd (mpsc_step (run mpsc_step s1 mid) (Poll 3%nat))) = RReady 10 /\
   wakes (trace mpsc_step s1 mid) = [7%nat] /\
   recv_vals (trace mpsc_step mpsc_init (pre ++ Poll 7%nat :: mid ++ [Poll 3%nat; Poll 3%nat])) = [10; 20] /\
-  mpsc_known_class (pre ++ Poll 7%nat :: mid ++ [Poll 3%nat; Poll 3%nat]) = false.
+  (* queued value first, then Closed; the last drop wakes the parked receiver *)
+  map (fun e => snd e) (trace mpsc_step mpsc_init [Send 0%nat 1; DropS 0%nat; Poll 0%nat; Poll 0%nat])
+  = [mkout RUnit []; mkout RUnit []; mkout (RReady 1) []; mkout RClosed []] /\
+  map (fun e => snd e) (trace mpsc_step mpsc_init [Poll 5%nat; DropS 0%nat; Poll 6%nat])
+  = [mkout RPending []; mkout RUnit [5%nat]; mkout RClosed []].
 Proof. vm_compute. repeat split; reflexivity. Qed.
 
 (* oneshot: interleaving poll / send section / poll / drop section / poll *)
@@ -240,11 +237,10 @@ Print Assumptions C34_mpsc_poll_delivers_oldest.
 Print Assumptions C34_mpsc_send_accepted.
 Print Assumptions C34_mpsc_no_lost_wakeup.
 Print Assumptions C34_mpsc_send_wakes_parked_receiver.
-Print Assumptions C34_mpsc_never_reports_disconnection.
-Print Assumptions C34_mpsc_disconnection_refuted.
-Print Assumptions C34_mpsc_property_unless_known.
-Print Assumptions C34_mpsc_known_class_exact.
-Print Assumptions C34_mpsc_property_except_disconnection.
+Print Assumptions C34_mpsc_disconnect_iff.
+Print Assumptions C34_mpsc_sender_count.
+Print Assumptions C34_mpsc_no_panic.
+Print Assumptions C34_mpsc_property.
 Print Assumptions C34_oneshot_exactly_once.
 Print Assumptions C34_oneshot_poll_delivers.
 Print Assumptions C34_oneshot_no_lost_wakeup.
